@@ -13,7 +13,7 @@ import pickle
 import sys
 import warnings
 
-sys.path.insert(0, "/repo")
+sys.path.insert(0, __import__("os").environ.get("VERIF_REPO", "/repo"))
 from collections import OrderedDict  # noqa: E402
 
 import numpy as np  # noqa: E402
@@ -550,11 +550,13 @@ def cases(tier, seed):
         seen.add(sp)
         seen_list.append(sp)
         out.append(dict(kind="compile", spec=sp, mode="lazy" if rs.rand() < 0.6 else "eager", seed=int(rs.randint(1 << 30)), nbind=1))
-    # tuples of 2..3 sub-expressions
+    # tuples of 1..3 sub-expressions (a one-component Tuple is still a tuple), and a nested one-component tuple
     ntup = 3000 if thorough else 300
-    for _ in range(ntup):
-        k = 2 + rs.randint(2)
+    for it in range(ntup):
+        k = 1 + rs.randint(3)
         parts = tuple(pool2[rs.randint(len(pool2))] for _ in range(k))
+        if it % 25 == 0:
+            parts = (("tuple", parts[:1]),) + parts[1:]
         sp = ("tuple", parts)
         if not well_typed(sp, sample):
             continue
